@@ -109,7 +109,7 @@ def main():
         sess = docs.build_sessions(sess_transpose, [a.seed * 1000003 + i for i in range(n)], core=True)
         nx = 40 if quick else 500
         sess += docs.build_sessions(sess_transpose, [a.seed * 1000003 + 300000000 + i for i in range(nx)], core=False)
-    docs.validate_sessions(run, sess, symptom_of=symptom_of)
+    docs.validate_sessions(run, sess, symptom_of=symptom_of, relevant=docs.relevant_for(run.pid))
     ivs = set()
     for s in sess:
         for e in s['log']:
